@@ -66,6 +66,59 @@ func (cr *c04Run) tables(c *rxCase, h []byte) *c04Tab {
 		return cr.curTab
 	}
 	t := &c04Tab{idx: make([]*[2]int, len(h)+1), sub: make([][]int, len(h)+1)}
+	if c.eng != nil && len(h) > 1500 {
+		// long haystack: the full table costs O(n^2).  Only the entries regexp's loop can visit are
+		// filled: the chains pos -> end (or pos + width after an empty match) that start at 0, once
+		// following the index entry point and once following the sub-match entry point.
+		fill := func(p int) {
+			if t.idx[p] == nil && t.sub[p] == nil {
+				if s, e, ok := c.eng.FindIndicesAt(h, p); ok {
+					t.idx[p] = &[2]int{s, e}
+				}
+				if m := c.eng.FindSubmatchAt(h, p); m != nil {
+					slots := make([]int, 0, 2*m.NumCaptures())
+					for g := 0; g < m.NumCaptures(); g++ {
+						if ix := m.GroupIndex(g); len(ix) >= 2 {
+							slots = append(slots, ix[0], ix[1])
+						} else {
+							slots = append(slots, -1, -1)
+						}
+					}
+					if len(slots) >= 2 {
+						t.sub[p] = slots
+					}
+				}
+			}
+		}
+		for _, useSub := range []bool{false, true} {
+			for pos, guard := 0, 0; pos <= len(h) && guard <= len(h)+2; guard++ {
+				fill(pos)
+				var e int
+				if useSub {
+					if t.sub[pos] == nil {
+						break
+					}
+					e = t.sub[pos][1]
+				} else {
+					if t.idx[pos] == nil {
+						break
+					}
+					e = t.idx[pos][1]
+				}
+				if e <= pos { // empty match at pos (or a malformed entry): step one rune
+					_, w := utf8.DecodeRune(h[pos:])
+					if w == 0 {
+						w = 1
+					}
+					pos += w
+				} else {
+					pos = e
+				}
+			}
+		}
+		cr.curKey, cr.curTab = key, t
+		return t
+	}
 	if c.eng != nil {
 		for p := 0; p <= len(h); p++ {
 			if s, e, ok := c.eng.FindIndicesAt(h, p); ok {
@@ -233,6 +286,9 @@ func (cr *c04Run) triage(c *rxCase, h []byte, n int, sub bool, got string, rende
 // stability of empty matches found beyond the search position: the hypothesis
 // find_empty_stable of FindAll.v, checked on every haystack.
 func (cr *c04Run) checkStable(c *rxCase, h []byte) {
+	if len(h) > 1500 {
+		return // the full single-match table is quadratic; stability is checked on the short haystacks
+	}
 	t := cr.tables(c, h)
 	for p, m := range t.idx {
 		if m != nil && m[0] == m[1] && m[0] > p && m[0] < len(t.idx) {
@@ -726,6 +782,7 @@ func cmdC04(args []string) int {
 		for _, fh := range c04FixedHays {
 			hays = append(hays, []byte(fh))
 		}
+		hays = append(hays, hg.longHays()...)
 		// a member of the language wrapped in multi-byte / invalid context
 		for k := 0; k < 4; k++ {
 			m := sampleMatch(sr, c.re, 0)
